@@ -61,7 +61,12 @@ def check_target(o, s):
     worse = k - 1 if R.kind != 'track' else k + 1
     sw = R.points_exact(worse)
     # the real scorer on the reported mark, too (the statement is about scoring it)
-    got = a.score(g, ev, perf)
+    try:
+        got = a.score(g, ev, perf)
+    except Exception as e:
+        return False, dict(observed=perf, why='score(%r) of the returned mark raises %s' % (perf, type(e).__name__), target=s)
+    if isinstance(got, bool) or not isinstance(got, int):
+        return False, dict(observed=perf, why='score(%r) of the returned mark is %r, not a number of points' % (perf, got), target=s)
     ok = sk >= need and got >= need and (s < 1 or sw < s)
     return ok, dict(observed=perf, centi=k, scores=sk, real_score=got, next_worse=worse / 100, next_worse_scores=sw, target=s)
 
